@@ -5,7 +5,7 @@
 From Coq Require Import List ZArith QArith Bool.
 Import ListNotations.
 Require Import QV.C09.Model QV.C09.Corr QV.C09.Proofs QV.C09.Proofs2 QV.C09.Proofs3 QV.C09.Proofs4 QV.C09.Proofs5 QV.C09.Proofs6
-               QV.C09.Proofs6x QV.C09.Proofs7 QV.C09.Proofs7x QV.C09.Proofs8 QV.C09.ProofsR QV.C09.ProofsE QV.C09.ProofsF QV.C09.Proofs9 QV.C09.Proofs10 QV.C09.ProofsN.
+               QV.C09.Proofs6x QV.C09.Proofs7 QV.C09.Proofs7x QV.C09.Proofs8 QV.C09.ProofsR QV.C09.ProofsE QV.C09.ProofsF QV.C09.Proofs9 QV.C09.Proofs10 QV.C09.ProofsN QV.C09.ProofsL.
 
 (* every freshly constructed tree (Loop(...) with nested children, any counts / waveforms / measurements) satisfies Inv *)
 Theorem C09_init : forall t, sInv (init_state t).
@@ -304,6 +304,57 @@ Theorem C09_failed_call_recursive_refuted :
   out = Raised ExAttr /\ option_map children (get (st_heap s') (st_root s')) <> option_map children (get (st_heap s) (st_root s)).
 Proof. exact reverse_partial_effect. Qed.
 Print Assumptions C09_failed_call_recursive_refuted.
+
+
+(* ---- round 5 --------------------------------------------------------------------------------------------------------- *)
+(* clause "every node's recorded position locates that very node from the root", linked to the functions the observation
+   uses: on a state satisfying the structural part of the invariant, get_location of a live node (with the fuel the
+   observation uses) is the list of positions along the path p that leads from the root to the node, and locate from the
+   root along that answer ends at the node itself *)
+Theorem C09_location_roundtrip : forall h r P x, InvExc h r P -> reach h r x ->
+  exists p, resolve h r p = Some x /\
+            get_location (S (S (length h))) h x = Some (loc_of_path p) /\ locate h r (loc_of_path p) = LNode x.
+Proof. intros h r P x I. exact (location_roundtrip h r P I x). Qed.
+Print Assumptions C09_location_roundtrip.
+
+(* the three bookkeeping clauses of the property end to end: after ANY history (22-operation alphabet, any paths and
+   arguments inside guard_C09_args, no model-artefact outcome: run_ok) from ANY constructed tree, EVERY live node reports the
+   duration recomputed from leaves and counts, its recorded location locates it from the root, and every child it lists
+   records it as parent and its index as position *)
+Theorem C09_property : forall t ops,
+  forallb guard_C09_args ops = true -> run_ok (init_state t) ops ->
+  let s := run (init_state t) ops in
+  let h := st_heap s in let r := st_root s in
+  forall x, reach h r x ->
+    (exists q b nx, peek_dur (S (S (length h))) h x = Some q /\ tbody h x b /\ get h x = Some nx /\ (q == b * rep_of nx)%Q) /\
+    (exists p, resolve h r p = Some x /\ get_location (S (S (length h))) h x = Some (loc_of_path p) /\
+               locate h r (loc_of_path p) = LNode x) /\
+    (forall nx i c, get h x = Some nx -> nth_error (children nx) i = Some c ->
+       exists nc, get h c = Some nc /\ parent nc = Some x /\ pidx nc = Some (Z.of_nat i)).
+Proof. exact property_all. Qed.
+Print Assumptions C09_property.
+
+(* non-vacuity of C09_history / C09_property: a 19-operation history on a 3-level tree (volatile count, measurements; duration
+   queries before edits, an effective roll, unroll, reverse, negative-bound slice, split, encapsulate, copies, cleanup, merge,
+   one IndexError and one ValueError the caller survives) satisfies guard and run_ok *)
+Theorem C09_history_nonvacuous :
+  forallb guard_C09_args nv_ops = true /\ run_ok (init_state nv_init) nv_ops /\
+  outcomes (init_state nv_init) nv_ops =
+    [Done; Done; Done; Done; Done; Done; Done; Done; Raised ExIndex; Done; Done; Raised ExValue; Done; Done; Done; Done;
+     Done; Done; Done].
+Proof. exact history_nonvacuous. Qed.
+Print Assumptions C09_history_nonvacuous.
+
+(* non-vacuity of the parts of C09_failed_call_no_effect: each kind of failing call exists on that tree *)
+Theorem C09_failed_call_nonvacuous :
+  (exists h' e, loop_setitem_int nv_root 9 0%nat nv_heap = (h', E e) /\ e <> ExFuel /\ e <> ExDangling) /\
+  (exists h', loop_setitem_slice nv_root None None (Some 0%Z) [] nv_heap = (h', E ExValue)) /\
+  (exists h', loop_setitem_slice nv_root None None (Some 2%Z) [0%nat; 1%nat; 2%nat] nv_heap = (h', E ExValue)) /\
+  (exists h' e, set_repetition_count_q nv_root (15 # 2) nv_heap = (h', E e) /\ e <> ExFuel /\ e <> ExDangling) /\
+  (exists fs', fstep (mkF (init_state nv_init) [0%nat]) (FInsert [0%nat] None [] (IInt 9)) = (fs', Raised ExIndex)) /\
+  (exists fs', fstep (mkF (init_state nv_init) [0%nat]) (FInsert [0%nat] None [] (ISlice None None (Some 0%Z))) = (fs', Raised ExValue)).
+Proof. exact failed_call_nonvacuous. Qed.
+Print Assumptions C09_failed_call_nonvacuous.
 
 (* the model's own observation passes the check that is applied to the implementation's observation *)
 Definition obs_ok (s : state) : bool :=
